@@ -131,8 +131,16 @@ class Context:
         if not hs:
             return
         tmo = THOROUGH_K_TIMEOUT if self.tier == 'thorough' else QUICK_K_TIMEOUT
-        r = kani.run(self.ov, hs, per_harness_timeout=tmo, jobs=min(15, len(hs)))
+        r = kani.run(self.ov, hs, per_harness_timeout=tmo, jobs=min(15 if self.tier == 'quick' else 10, len(hs)))
         self.checker_cmds.append(r['cmd'].replace(self.ov, '<overlay>'))
+        # harnesses that ran out of memory / time while 10-15 CBMC processes shared the machine get one more run, few at a time
+        again = [h for h in hs if r['results'][h['name']]['status'] in ('UNDECIDED', 'TIMEOUT', 'ERROR') and 'unwinding' not in r['results'][h['name']].get('detail', '')]
+        if again and len(again) <= 12:
+            r2 = kani.run(self.ov, again, per_harness_timeout=tmo * 2, jobs=min(3, len(again)), log_dir=os.path.join(self.ov, 'verif_logs_retry'))
+            for h in again:
+                if r2['results'][h['name']]['status'] in ('SUCCESS', 'FAILED'):
+                    r['results'][h['name']] = r2['results'][h['name']]
+            self._extra['kani_retried'] = [h['name'] for h in again]
         self._extra.setdefault('engine_wall_s', {})['K'] = round(r['wall_s'], 1)
         for h in hs:
             x = r['results'][h['name']]
